@@ -27,6 +27,7 @@ import (
 
 	"github.com/rulego/streamsql/types"
 	"github.com/rulego/streamsql/utils/cast"
+	"github.com/rulego/streamsql/verifhook"
 )
 
 // Ensure SessionWindow struct implements Window interface
@@ -150,6 +151,7 @@ func (sw *SessionWindow) Add(data any) {
 	// Lock to ensure thread safety
 	sw.mu.Lock()
 	defer sw.mu.Unlock()
+	defer func() { verifhook.At("ss.add", sw, int64(len(sw.sessionMap)), int64(len(sw.triggeredSessions)), 0) }()
 
 	if !sw.initialized {
 		// Safely close initChan to avoid closing an already closed channel
@@ -323,7 +325,9 @@ func (sw *SessionWindow) startEventTime() {
 			for {
 				select {
 				case watermarkTime := <-sw.watermark.WatermarkChan():
+					verifhook.At("ss.trig", sw, watermarkTime.UnixMilli(), 0, 0)
 					sw.checkAndTriggerSessions(watermarkTime)
+					verifhook.At("ss.trigdone", sw, watermarkTime.UnixMilli(), 0, 0)
 				case <-sw.ctx.Done():
 					return
 				}
@@ -387,6 +391,7 @@ func (sw *SessionWindow) checkAndTriggerSessions(watermarkTime time.Time) {
 	sw.closeExpiredSessions(watermarkTime)
 	callback := sw.callback
 	sw.mu.Unlock()
+	verifhook.At("ss.fired", sw, watermarkTime.UnixMilli(), int64(len(resultsToSend)), 0)
 
 	sw.sendResults(resultsToSend, callback)
 }
@@ -616,6 +621,7 @@ func (sw *SessionWindow) triggerLateUpdateLocked(s *session) {
 
 	// Release lock before calling callback and sending to channel to avoid blocking
 	sw.mu.Unlock()
+	verifhook.At("ss.late", sw, 0, int64(len(resultData)), 0)
 
 	if callback != nil {
 		callback(resultData)
